@@ -223,6 +223,24 @@ def run_sizes(case, acc, order):
         if bad:
             viol(acc, 'flat-reader', 'iter_chunks', bad, case, op, 'non-empty intervals tile [0,n)',
                  [(int(a), int(b_)) for a, b_ in it], order)
+        if len(sizes) == 1:
+            # the reader without a file (synthetic data): the same promises about its chunk grid
+            try:
+                from phylib.io.traces import RandomEphysReader
+                rr = RandomEphysReader(n, 2, sample_rate=chunk / 600.0)
+                cb, it = list(rr.chunk_bounds), list(rr.iter_chunks())
+            except (Exception, core.CaseTimeout) as e:
+                viol(acc, 'random-reader', 'build', type(e).__name__, case, op, 'a reader', repr(e), order)
+                continue
+            acc.step(n % chunk == 0, 'reader:random')
+            bad = check_reader_bounds(cb, [0, n], n, chunk)
+            if bad:
+                viol(acc, 'random-reader', 'chunk_bounds', bad, case, op, 'as above', [int(x) for x in cb],
+                     order)
+            bad = check_iter(it, n)
+            if bad:
+                viol(acc, 'random-reader', 'iter_chunks', bad, case, op, 'non-empty intervals tile [0,n)',
+                     [(int(a), int(b_)) for a, b_ in it], order)
     if order % 37 == 0:
         acc.sample({'file_sizes': sizes, 'chunk_lengths': '1..%d' % case['C']})
 
